@@ -142,12 +142,12 @@ theorem order_exact_of_le_8 (st : State) (i m : Nat) (ops : List Op)
 
 /-! ### notification never waits -/
 
-/-- `notify` is a total function of the state: for every state and change set it returns, and
-    the state it returns has the same subscribers with the same interface, mask and
-    closed-ness, each buffer extended at the end only.  (Tied to Go by
-    `gen_notifySendHasDefault`: the only channel operation is a send in a `select` with
-    `default`.) -/
-theorem notify_total (st : State) (cs : List (Nat × List Nat)) :
+/-- Frame conditions of `notify`: the state it returns has the same subscribers with the same
+    interface, mask and closed-ness, and each buffer is only extended at the end.  (That the real
+    `notify` never WAITS is not a theorem — every Lean function is total: it rests on the
+    regenerated fact `gen_notifySendHasDefault`, the only channel operation being a send in a
+    `select` with `default`, and on the virtual-time watchdog of the harness.) -/
+theorem notify_frame (st : State) (cs : List (Nat × List Nat)) :
     ∃ st', notify st cs = st' ∧ st'.length = st.length ∧
       ∀ (j : Nat) (s : Sub), st[j]? = some s → ∃ s' : Sub, st'[j]? = some s' ∧
         s'.iface = s.iface ∧ s'.mask = s.mask ∧ s'.closes = s.closes ∧ s.buf <+: s'.buf := by
